@@ -13,6 +13,8 @@ mod desc;
 mod c01;
 mod c02;
 mod c05;
+mod c10;
+mod c11expr;
 mod c15;
 mod c18;
 
@@ -33,6 +35,8 @@ fn main() {
         "C01" => c01::run(&mut out, thorough, seed),
         "C02" => c02::run(&mut out, thorough, seed),
         "C05" => c05::run(&mut out, thorough, seed),
+        "C10" => c10::run(&mut out, thorough, seed),
+        "C11" => c11expr::run(&mut out, thorough, seed),
         "C15" => c15::run(&mut out, thorough, seed),
         "C18" => c18::run(&mut out, thorough, seed),
         _ => {
